@@ -100,6 +100,8 @@ def build(repo='/repo', variant='asan', out=None, quiet=True):
     repo = os.path.realpath(repo)
     if out is None:
         tag = '' if repo == '/repo' else '-' + hashlib.sha1(repo.encode()).hexdigest()[:8]
+        if os.environ.get('VERIF_BUILD_TAG'):
+            tag += '-' + os.environ['VERIF_BUILD_TAG']
         out = os.path.join(VERIF, '.build', variant + tag)
     os.makedirs(out, exist_ok=True)
     env = dict(os.environ)
